@@ -61,6 +61,13 @@ def check(prog, rep):
     pred_memory(prog, rep)
     pred_sqlite(prog, rep)
     pred_peewee(prog, rep)
+    # what is inserted into a bucket is stored under THAT bucket's current row, and listing / lookup read that row's events
+    from ..rules_store import scope_memory, scope_peewee, scope_sqlite
+
+    ms = {"insert_one", "insert_many", "get_events", "get_event", "replace", "replace_last"}
+    scope_sqlite(prog, rep, methods=ms)
+    scope_peewee(prog, rep, methods=ms)
+    scope_memory(prog, rep, methods=ms)
 
 
 SQ = "aw_datastore/storages/sqlite.py"
